@@ -65,34 +65,70 @@ def covers(E, s):
     return False
 
 
+def _endpoint_groups(ctx, p, fn, ep):
+    """per reaching definition of the end point: the options under which it is covered, each option a list of alternatives
+    (guard_blocks, state terms, mediated) that must all be covered.  An index drawn from a list built in this function has
+    two options: the check is made where the element is used (the direct option: RRT* tests the motion from each neighbour
+    when it considers it), or where it was put on the list (the mediated option: PRM keeps only checked neighbours)."""
+    if 'state' in ep:
+        return [[[([], P.norm_state(ctx, p, fn, ep['state']), False)]]]
+    groups = []
+    for (db, idx) in ep['defs']:
+        alts, med = _alts(ctx, p, fn, ep['cont'], idx, db)
+        opts = []
+        if med:
+            st = P.norm_state(ctx, p, fn, P.node_state_term(ep['cont'], idx, ep['sfield']))
+            opts.append([([db] if db is not None else [], st, False)])
+        opts.append([(gb, P.norm_state(ctx, p, fn, P.node_state_term(ep['cont'], x, ep['sfield'])), m) for (gb, x, m) in alts])
+        groups.append(opts)
+    return groups
+
+
 def check_link(ctx, p, mcalls, fn, link_block, e1, e2):
     """returns (ok, n_alternatives, first failure description)"""
-    a1 = _endpoint_alts(ctx, p, fn, e1, link_block)
-    a2 = _endpoint_alts(ctx, p, fn, e2, link_block)
+    G1 = _endpoint_groups(ctx, p, fn, e1)
+    G2 = _endpoint_groups(ctx, p, fn, e2)
     n = 0
-    for (g1, s1, m1) in a1:
-        for (g2, s2, m2) in a2:
-            n += 1
-            if m1 or m2:
-                blocks = (g1 if m1 else []) + (g2 if m2 else [])
-            else:
-                blocks = [link_block] + g1 + g2
-            found = False
-            for m in mcalls:
-                if m['fn'] is not fn:
-                    continue
-                mf = P.norm_state(ctx, p, fn, m['from'])
-                mt = P.norm_state(ctx, p, fn, m['to'])
-                if not ((covers(mf, s1) and covers(mt, s2)) or (covers(mf, s2) and covers(mt, s1))):
-                    continue
-                if any(P.guarded(fn, gb, m['true_edges']) for gb in blocks):
-                    found = True
+
+    def found(alt1, alt2):
+        (g1, s1, m1), (g2, s2, m2) = alt1, alt2
+        if m1 or m2:
+            blocks = (g1 if m1 else []) + (g2 if m2 else [])
+        else:
+            blocks = [link_block] + g1 + g2
+        for m in mcalls:
+            if m['fn'] is not fn:
+                continue
+            mf = P.norm_state(ctx, p, fn, m['from'])
+            mt = P.norm_state(ctx, p, fn, m['to'])
+            if not ((covers(mf, s1) and covers(mt, s2)) or (covers(mf, s2) and covers(mt, s1))):
+                continue
+            if any(P.guarded(fn, gb, m['true_edges']) for gb in blocks):
+                return None
+        return 'no motion check between %s and %s dominates the link (guard sites tried: %s)' % (
+            fmt_terms(s1)[:70], fmt_terms(s2)[:70], ['bb%d' % x for x in blocks])
+
+    for opts1 in G1:
+        for opts2 in G2:
+            why = None
+            okpair = False
+            for o1 in opts1:
+                for o2 in opts2:
+                    bad = None
+                    for alt1 in o1:
+                        for alt2 in o2:
+                            n += 1
+                            bad = bad or found(alt1, alt2)
+                    if bad is None:
+                        okpair = True
+                    else:
+                        why = bad
+                    if okpair:
+                        break
+                if okpair:
                     break
-            if not found:
-                return False, n, 'no motion check between %s and %s dominates the link (guard sites tried: %s)' % (
-                    fmt_terms(s1)[:70], fmt_terms(s2)[:70], ['bb%d' % x for x in blocks])
-    if n == 0:
-        return True, 0, ''
+            if not okpair:
+                return False, n, why or 'no alternative for the link end points'
     return True, n, ''
 
 
